@@ -614,6 +614,17 @@ impl Scenario for Sched {
         let mut st = gen_conforming(&cfg, &mut rng);
         let n_faults = if rng.chance(1, 5) { 0 } else { rng.range(1, 6) };
         let mut label = String::new();
+        // 1 in 8: one link (not the one that opens the stream) sends the other RDH version throughout - every link
+        // is judged against the version it saw first itself
+        if st.links.len() >= 2 && rng.chance(1, 8) {
+            let first = st.order[0].0;
+            let others: Vec<usize> = (0..st.links.len()).filter(|&l| l != first).collect();
+            let l = others[rng.usize_below(others.len())];
+            for pk in st.links[l].packets.iter_mut() {
+                pk.rdh.version = if pk.rdh.version == 6 { 7 } else { 6 };
+            }
+            label.push_str("one-link-other-rdh-version,");
+        }
         if fatal_plan {
             label.push_str("lanes-announce-fatal-on-every-stave,");
         }
@@ -2243,7 +2254,11 @@ impl Scenario for ExitContract {
         let lists: Vec<&str> = if checks_toml.is_some() {
             vec!["9001", "9002", "9001 9002", "900", "10 900 9001", "9", "99", "90"]
         } else {
-            vec!["4", "44", "440 441 442", "9", "99", "991 992", "1", "10", "11", "10 11", "70 71 72 73", "30 40 50 60", "100", "7", "74 75"]
+            // (among them lists in which a code comes before a longer code it is a prefix of)
+            vec![
+                "4", "44", "440 441 442", "9", "99", "991 992", "1", "10", "11", "10 11", "70 71 72 73", "30 40 50 60", "100", "7", "74 75",
+                "10 100 101", "11 110 111", "44 440 441 442 443 444 445", "70 701", "99 991 992", "4 44 440", "1 10 11 110",
+            ]
         };
         for _ in 0..2 {
             let l = *rng.pick(&lists);
@@ -2255,6 +2270,31 @@ impl Scenario for ExitContract {
         let cap = rng.range(1, 12);
         specs.push(mk(&s(&["-e", &cap.to_string()]), &mut rng));
         kinds.push(format!("cap:{cap}"));
+        // the statistics go to stdout instead of a file: what is shown on stderr stays what it is
+        if !missing && matches!(class, "clean" | "errors") {
+            let mut p: Vec<String> = Vec::new();
+            let mut skip = 0;
+            for a in parts.iter() {
+                if skip > 0 {
+                    skip -= 1;
+                    continue;
+                }
+                if a == "-S" {
+                    p.extend(s(&["-S", "stdout"]));
+                    skip = 1;
+                    continue;
+                }
+                p.push(a.clone());
+            }
+            let mut sp = specgen::spec(im.clone(), &p, input.clone());
+            sp.custom_checks_toml = checks_toml.clone();
+            sp.stats_ext = ext.to_string();
+            if rng.chance(4, 5) {
+                swarm_schedule(&mut sp, &mut rng, 300 + st.total_packets() as u64 * 12);
+            }
+            specs.push(sp);
+            kinds.push("stats-to-stdout".to_string());
+        }
         // the check once more behind an output destination that is accepted and ignored, with the filter it requires
         if !missing && matches!(class, "clean" | "errors") && !st.links.is_empty() {
             let l = &st.links[rng.usize_below(st.links.len())];
